@@ -130,7 +130,7 @@ def run(module, cfg, wd=None, workers=16, env=None, timeout=900, simulate=None, 
     cmd += [os.path.join(module_dir, module + '.tla')]
     e = dict(os.environ)
     lib = TLA if module_dir == TLA else module_dir + os.pathsep + TLA
-    e['JAVA_TOOL_OPTIONS'] = (e.get('JAVA_TOOL_OPTIONS', '') + ' -DTLA-Library=' + lib).strip()
+    e['JAVA_TOOL_OPTIONS'] = (e.get('JAVA_TOOL_OPTIONS', '') + ' -DTLA-Library=' + lib + ' -Djava.io.tmpdir=' + wd).strip()   # TLC leaves an empty tlc-* directory in java.io.tmpdir: keep it inside the run's own scratch directory
     if env:
         e.update(env)
     t0 = time.time()
